@@ -194,6 +194,9 @@ func genC13(tier string, rng *rand.Rand, shard, nshards int, emit emitter) {
 				name = []string{"str", "stro"}[rng.Intn(2)]
 			}
 			op := accOp(rng, name, a)
+			if rng.Intn(3) == 0 && name != "reg" && name != "dreg" && name != "qreg" {
+				op = "F" + op // the same read through Field.ExtractFrom: it must leave no trace on the Registers either
+			}
 			ops = append(ops, op)
 			if rng.Intn(4) == 0 {
 				ops = append(ops, op) // repeat the same read
